@@ -447,6 +447,8 @@ def run(pid, tier, seed, replay_only=None):
             'slow_obligations': slow[:20],
             'covers_reachable': covers_ok, 'covers_unreachable': covers_bad,
             'sentinels_failing_as_required': sentinels_ok, 'sentinels_wrongly_proved': sentinel_fail,
+            'implication_guards_false_on_every_path': sorted(
+                '%s: %s' % (fn, g) for (fn, g), (nf, no) in getattr(eng, 'guard_stats', {}).items() if no == 0 and nf > 0)[:40],
             'paths_explored': eng.stats['paths'], 'paths_pruned': eng.stats['pruned'],
             'traces_validated_against_impl': n_native,
             'native_conformance_runs': native_runs,
